@@ -29,8 +29,8 @@ def setup(two):
 # ---------------------------------------------------------------- boxes (Box<Interval<intN, Info>>)
 BOX_ROOTS = "re:^(w_b_|w_OK$|w_add$|ENC_|POL_|LOWER_|UPPER_|STORE_|MAY_|BST_)"
 BOX_OPS1 = ["is_empty", "is_universe", "is_bounded", "is_discrete", "is_topologically_closed", "topological_closure"]
-BOX_OPS2 = ["contains", "strictly_contains", "is_disjoint_from", "equal", "intersection", "upper_bound", "upper_bound_if_exact", "difference"]
-BOX_VOID = {"intersection", "upper_bound", "difference", "topological_closure", "unconstrain"}
+BOX_OPS2 = ["contains", "strictly_contains", "is_disjoint_from", "equal", "intersection", "upper_bound", "upper_bound_if_exact", "difference", "time_elapse"]
+BOX_VOID = {"intersection", "upper_bound", "difference", "topological_closure", "unconstrain", "time_elapse"}
 def box_unit(tt, pol, prop="C03"):
     from C12 import POLS
     cxx, w, sg = TYPES[tt]
@@ -40,12 +40,14 @@ def box_unit(tt, pol, prop="C03"):
                 aliases={"FN_b_unconstrain": r"Box<.*>::unconstrain\(Parma_Polyhedra_Library::Variable\)$"})
 def box_vars():
     return [Var("ITV_T", "xs0"), Var("ITV_T", "xs1"), Var("ITV_T", "ys0"), Var("ITV_T", "ys1"), Var("uint32_t", "fx"), Var("uint32_t", "fy"),
-            Var("int32_t", "pn0"), Var("int32_t", "pn1"), Var("int8_t", "ps0"), Var("int8_t", "ps1")]
+            Var("int32_t", "pn0"), Var("int32_t", "pn1"), Var("int8_t", "ps0"), Var("int8_t", "ps1"),
+            Var("int32_t", "qn0"), Var("int32_t", "qn1"), Var("int8_t", "qs0"), Var("int8_t", "qs1"), Var("int32_t", "tt")]
 BOX_SETUP = """  G_xs[0] = xs0; G_xs[1] = xs1; G_ys[0] = ys0; G_ys[1] = ys1;
   BOX_BEGIN(&G_bx) = G_xs; BOX_END(&G_bx) = G_xs + BOX_D; BOX_CAP(&G_bx) = G_xs + BOX_D; BOX_FLAGS(&G_bx) = fx;
   BOX_BEGIN(&G_by) = G_ys; BOX_END(&G_by) = G_ys + BOX_D; BOX_CAP(&G_by) = G_ys + BOX_D; BOX_FLAGS(&G_by) = fy;
-  G_pn[0] = pn0; G_pn[1] = pn1; G_ps[0] = ps0; G_ps[1] = ps1;
-  __CPROVER_assume(box_wf(&G_bx, G_xs) && box_wf(&G_by, G_ys) && pt_ok());
+  G_pn[0] = pn0; G_pn[1] = pn1; G_ps[0] = ps0; G_ps[1] = ps1; G_qn[0] = qn0; G_qn[1] = qn1; G_qs[0] = qs0; G_qs[1] = qs1; G_t = tt;
+  __CPROVER_assume(box_wf(&G_bx, G_xs) && box_wf(&G_by, G_ys) && pt_ok() && ns_ok(G_pn[1], G_ps[1]) && ns_ok(G_qn[0], G_qs[0]) && ns_ok(G_qn[1], G_qs[1]));   /* (unused coordinates kept in range too: the spec arithmetic evaluates them) */
+  G_satQ0 = box_sat_pt(&G_by, G_ys, GQ(0), GQ(1));
   G_xs0[0] = G_xs[0]; G_xs0[1] = G_xs[1]; G_fx0 = fx;
   G_satX0 = box_sat(&G_bx, G_xs); G_satY0 = box_sat(&G_by, G_ys); G_emptyX0 = box_empty(&G_bx, G_xs); G_emptyY0 = box_empty(&G_by, G_ys);"""
 BOX_NATIVE_DECL = """
@@ -53,7 +55,7 @@ BOX_NATIVE_DECL = """
 #define XSTR(a) XSTR2(a)
 ex_t G_an, G_bn; int G_as, G_bs; ITV_T G_to0; int64_t G_z;
 ITV_T G_xs[BOX_N], G_ys[BOX_N]; BOX_T G_bx, G_by; ex_t G_pn[BOX_N]; int G_ps[BOX_N]; ITV_T G_xs0[BOX_N]; uint32_t G_fx0;
-int G_satX0, G_satY0, G_emptyX0, G_emptyY0; uint32_t G_tokens, G_tokens0; int G_plain_changed; uint32_t G_fy0;
+int G_satX0, G_satY0, G_emptyX0, G_emptyY0; ex_t G_qn[BOX_N]; int G_qs[BOX_N]; int32_t G_t; int G_satQ0; uint32_t G_tokens, G_tokens0; int G_plain_changed; uint32_t G_fy0;
 """
 def box_native(fn, ret, proto, call, posts, extra_pre=""):
     """native replay of a box task: the harness objects are rebuilt around the counterexample values and handed to the real function"""
